@@ -9,7 +9,7 @@ from concurrent.futures import ThreadPoolExecutor
 import lib
 import c04
 
-THEOREMS = ['C18.C18_abi_governed_lines', 'C18.C18_full_governed_lines', 'C18.C18_mode_governed_lines', 'C18.C18_hotfix_line_local']
+THEOREMS = ['C18.C18_abi_governed_lines', 'C18.C18_full_governed_lines', 'C18.C18_mode_governed_lines', 'C18.C18_hotfix_line_local', 'C18.C18_dist_governed_items', 'C18.C18_abi_governed_items']
 HDR = re.compile(r'^\s*(profile\s|hat\s|\^)')
 EXECMODE = re.compile(r'\b(r?)(pux|ux|px|PUx|Ux|Px)\b,')
 DIST_WORDS = set(lib.DISTS) | {'apt', 'pacman', 'zypper'}
